@@ -142,6 +142,7 @@ func (b *builder) subCfg(kind string) sut.Cfg {
 // msgStream makes what a peer sends to a whole-message receiver: structured
 // messages (truth kept) or raw bytes (hostile / corrupted / truncated).
 func (b *builder) msgStream(c *Conn, hostile int, o gen.MsgOpts, maxMsgs int) {
+	c.Realloc = b.r.Chance(1, 4)
 	n := 1
 	if maxMsgs > 1 && b.r.Chance(1, 3) {
 		n = b.r.Range(2, maxMsgs)
@@ -449,7 +450,7 @@ func (b *builder) buildC01() {
 }
 
 func (b *builder) subConn(kind string, hostilePct int) Conn {
-	c := Conn{Cfg: b.subCfg(kind), Obj: -1}
+	c := Conn{Cfg: b.subCfg(kind), Obj: -1, Realloc: b.r.Chance(1, 4)}
 	txt := b.g.SubText(kind, c.Cfg.Flags, c.Cfg.HType)
 	c.Clean = true
 	if b.r.Intn(100) < hostilePct {
